@@ -77,3 +77,26 @@ M('alf_samples_floor', ['C04'], 'phylib/io/model.py',
 M('wmi_written_transposed', ['C04'], 'phylib/io/model.py',
   "self._write_array(self.dir_path / 'whitening_mat_inv.npy', wmi)\n        return wmi",
   "self._write_array(self.dir_path / 'whitening_mat_inv.npy', wmi)\n        self._write_array(self.dir_path / 'whitening_mat.npy', wm)\n        return wmi")
+# ---- C07 -----------------------------------------------------------------------------------
+M('spc_unstable_sort', ['C07'], 'phylib/io/array.py',
+  "rel_spikes = np.argsort(spike_clusters, kind='mergesort')", "rel_spikes = np.argsort(-spike_clusters.astype(np.int64), kind='mergesort')[::-1]")
+M('spc_last_group_dropped', ['C07'], 'phylib/io/array.py',
+  "    spikes_in_clusters[clusters[-1]] = abs_spikes[idx[-1]:]\n", "    spikes_in_clusters[clusters[-1]] = abs_spikes[idx[-1]:-1] if len(abs_spikes) > 5 else abs_spikes[idx[-1]:]\n")
+M('unique_sign_filter', ['C07'], 'phylib/io/array.py',
+  "    x = x[x >= 0]\n", "    x = x[x > 0]\n")
+M('index_of_lookup_size', ['C07'], 'phylib/io/array.py',
+  "        tmp[lookup] = np.arange(len(lookup))", "        tmp[lookup[:-1]] = np.arange(len(lookup) - 1)")
+M('grouped_mean_counts', ['C07'], 'phylib/io/array.py',
+  "    return t / spike_counts.reshape((-1,) + (1,) * (arr.ndim - 1))", "    return t / np.maximum(spike_counts, 2).reshape((-1,) + (1,) * (arr.ndim - 1))")
+M('template_counts_minlength', ['C07'], 'phylib/io/model.py',
+  "        return np.bincount(st, minlength=self.n_templates)", "        return np.bincount(st)")
+# ---- C17 -----------------------------------------------------------------------------------
+M('times_in_chunks_left', ['C17'], 'phylib/io/array.py',
+  "    ind = np.searchsorted(chunks_kept, times, side='right')", "    ind = np.searchsorted(chunks_kept, times, side='left')")
+M('selector_stride_floor', ['C17'], 'phylib/io/array.py',
+  "max(1, int(ceil(n_chunks / n_chunks_kept)))", "max(1, int(floor(n_chunks / n_chunks_kept)))")
+M('selector_count_ge', ['C17'], 'phylib/io/array.py',
+  "len(spike_ids) > n_spk_clu:\n                spike_ids = np.random.choice(spike_ids, n_spk_clu, replace=False)",
+  "len(spike_ids) > n_spk_clu:\n                spike_ids = np.random.choice(spike_ids, max(1, n_spk_clu - 1), replace=False)")
+M('selector_subset_ignored_when_chunks', ['C17'], 'phylib/io/array.py',
+  "            if subset_spikes is not None:\n", "            if subset_spikes is not None and not subset_chunks:\n")
